@@ -1,9 +1,12 @@
 //go:build verif
 
 // Contracts for the verifier in /verif (comment-only file; compiled only with -tags verif).
-// Functions that had no contract yet: the fake pre_shared_key decoder, the uTLS connection-state
-// helper, the remaining sessionController methods, the exported ticket wrappers, the TLS 1.2 client
-// handshake driver (thin contract) and ShuffleChromeTLSExtensions.
+// Functions that had no contract yet: the fake pre_shared_key decoder (C07 C08 C06), the uTLS
+// connection-state helper (C11 C22), the exported ticket wrappers (C35), the TLS 1.2 client handshake
+// driver (thin contract; C11 C12 C14) and ShuffleChromeTLSExtensions (C03; bounds/nil only, see there).
+// u_session_controller.go (C20 C19) has nothing left: all 29 function keys of sessionController (22
+// methods, 7 closures) have a contract in verif_contracts_session.go; (*sessionController).overrideExtension
+// is the `trusted func` there (it calls its function argument), so it cannot get a second, checked key.
 
 package tls
 
@@ -25,7 +28,7 @@ package tls
 // block length ends inside an entry.  What the code does (id_mod): it stops at the first entry boundary
 // whose offset is congruent to 2 + IL modulo 65536.  For len(b) <= 65535 (every extension body that
 // can come from a wire ClientHello) this is the declared end (id_exact); for longer inputs it is not
-// (DEFECT_id_block_end, last clause).  The binders counter cannot wrap (bd_exact for every input).
+// (observation in the note after id_exact).  The binders counter cannot wrap (bd_exact for every input).
 //@ uf gpId(Int) Int
 //@ uf gpBd(Int) Int
 //@ spec gpIdWalk(b) = gpId(0) == 2 && forall j in 0..len(b): gpId(j+1) == gpId(j) + 6 + (b[gpId(j)]*256 + b[gpId(j)+1])
@@ -40,6 +43,10 @@ package tls
 //@   let IL = b[0]*256 + b[1]
 //@   let ids0 = e.Identities
 //@   let bds0 = e.Binders
+//@   let l0 = b[2]*256 + b[3]
+//@   let BL = b[2+IL]*256 + b[3+IL]
+//@   let bl0 = b[4+IL]
+//@   let one = len(b) >= 4 && IL == 6 + l0 && len(b) >= 4 + IL && BL == 1 + bl0 && len(b) >= 4 + IL + BL
 //@   requires e != nil
 //@   requires nospare: cap(e.Identities) == len(e.Identities)
 //@   note nospare: only needed for the frame. With spare capacity append() writes the new PskIdentity into the old backing array beyond len, and the generator cannot name such a region of a slice of STRUCTS in a modifies clause (calls.go: "modifies region over slice of structs"); for [][]byte it can (e.Binders[nb0..cap]). All bounds/nil/panic obligations (C07) were also discharged without this precondition (run of 2026-09-22: only the 5 frame-keep obligations of the PskIdentity field heaps failed). The importers call Write on a freshly built &FakePreSharedKeyExtension{} (nil lists).
@@ -51,12 +58,21 @@ package tls
 //@   ensures keep_ids: forall j in 0..ni0: e.Identities[j].Label == old(e.Identities[j].Label) && e.Identities[j].ObfuscatedTicketAge == old(e.Identities[j].ObfuscatedTicketAge)
 //@   ensures keep_bds: forall j in 0..nb0: e.Binders[j] == old(e.Binders[j])
 //@   ensures count: 6 * (len(e.Identities) - ni0) + (len(e.Binders) - nb0) + 4 <= len(b) || ret1 != nil
-//@   ensures walk_ids: gpIdWalk(b) ==> forall j in 0..len(e.Identities)-ni0: e.Identities[ni0+j].Label == b[gpId(j)+2:gpId(j)+2+gpIdLen(b, gpId(j))] && e.Identities[ni0+j].ObfuscatedTicketAge == gpBe32(b, gpId(j)+2+gpIdLen(b, gpId(j)))
+//@   ensures labels_in_input: forall j in 0..len(e.Identities)-ni0: arr(e.Identities[ni0+j].Label) == arr(b) && off(e.Identities[ni0+j].Label) + cap(e.Identities[ni0+j].Label) == off(b) + cap(b)
+//@   note labels_in_input: without the walk functions: every appended label is a window of b (no copy)
+//@   ensures walk_ids: gpIdWalk(b) ==> forall j in 0..len(e.Identities)-ni0: e.Identities[ni0+j].Label == b[gpId(j)+2:gpId(j)+2+gpIdLen(b, gpId(j))]
+//@   ensures walk_age: gpIdWalk(b) ==> forall j in 0..len(e.Identities)-ni0: e.Identities[ni0+j].ObfuscatedTicketAge == gpBe32(b, gpId(j+1) - 4)
+//@   note walk_age: gpId(j+1) - 4 == gpId(j) + 2 + (length of label j): the big-endian value of the 4 bytes behind the label
 //@   ensures id_mod: gpIdWalk(b) && ret1 == nil ==> (gpId(len(e.Identities)-ni0) - 2 - IL) % 65536 == 0 && gpId(len(e.Identities)-ni0) + 2 <= len(b)
 //@   ensures id_exact: gpIdWalk(b) && ret1 == nil && len(b) <= 65535 ==> gpId(len(e.Identities)-ni0) == 2 + IL
 //@   ensures walk_bds: gpIdWalk(b) && gpBdWalk(b, gpId(len(e.Identities)-ni0) + 2) ==> forall j in 0..len(e.Binders)-nb0: e.Binders[nb0+j] == b[gpBd(j)+1:gpBd(j)+1+b[gpBd(j)]]
 //@   ensures bd_exact: gpIdWalk(b) && gpBdWalk(b, gpId(len(e.Identities)-ni0) + 2) && ret1 == nil ==> gpBd(len(e.Binders)-nb0) == gpBd(0) + gpIdLen(b, gpBd(0) - 2) && gpBd(len(e.Binders)-nb0) <= len(b)
-//@   ensures DEFECT_id_block_end: gpIdWalk(b) && ret1 == nil ==> gpId(len(e.Identities)-ni0) == 2 + IL
+//@   ensures framing: ret1 == nil && len(b) <= 65535 ==> len(b) >= 4 + IL + BL
+//@   note framing: without the walk functions: an accepted body of wire size holds the declared identities block (IL bytes), the binders length and the declared binders block (BL bytes)
+//@   ensures empty: len(b) >= 4 && IL == 0 && b[2] == 0 && b[3] == 0 ==> ret1 == nil && e.Identities == old(e.Identities) && e.Binders == old(e.Binders)
+//@   ensures single: one ==> ret1 == nil && len(e.Identities) == ni0 + 1 && len(e.Binders) == nb0 + 1
+//@   note single: the usual body (one identity of l0 bytes, one binder of bl0 bytes, possibly trailing bytes) is ACCEPTED and appends exactly one entry to each list; their values are walk_ids / walk_age / walk_bds for j == 0 (gpId(0) == 2, gpBd(0) == 4 + IL: label b[4:4+l0], age at 4+l0, binder b[5+IL:5+IL+bl0]). The closed-form element values were proved too (run of 2026-09-22 13:10) but their loop invariants made the quantified invariants slow (4-6 s), so they were dropped
+//@   note not a clause: "the identities block ends where its length field says" -- the uint16 counter wraps for inputs longer than 65535 bytes (b = 00 03 | 00 00 01 02 03 04 | ff f7 <65527 bytes> 09 09 09 09 | 00 00 is accepted with 2 identities); an extension body on the wire has at most 65535 bytes, for which id_exact holds, so this is an observation beyond wire limits, not a finding
 //@   loop 0 invariant len(b) >= 2
 //@   loop 0 invariant arr(s) == arr(b) && off(s) >= off(b) + 2 && off(s) + len(s) == off(b) + len(b) && off(s) + cap(s) == off(b) + cap(b)
 //@   loop 0 invariant len(e.Identities) >= ni0 && e.Binders == bds0
@@ -65,19 +81,147 @@ package tls
 //@   loop 0 invariant 6 * (len(e.Identities) - ni0) <= off(s) - off(b) - 2
 //@   loop 0 invariant (identitiesLength - (IL - (off(s) - off(b) - 2))) % 65536 == 0
 //@   loop 0 invariant gpIdWalk(b) ==> off(s) == off(b) + gpId(len(e.Identities) - ni0)
-//@   loop 0 invariant gpIdWalk(b) ==> forall j in 0..len(e.Identities)-ni0: e.Identities[ni0+j].Label == b[gpId(j)+2:gpId(j)+2+gpIdLen(b, gpId(j))]
-//@   loop 0 invariant gpIdWalk(b) ==> forall j in 0..len(e.Identities)-ni0: e.Identities[ni0+j].ObfuscatedTicketAge == gpBe32(b, gpId(j)+2+gpIdLen(b, gpId(j)))
-//@   at after call ReadUint32#0: assert age: gpIdWalk(b) && res ==> obfuscatedTicketAge == gpBe32(b, gpId(len(e.Identities)-ni0)+2+gpIdLen(b, gpId(len(e.Identities)-ni0)))
+//@   loop 0 invariant forall j in 0..len(e.Identities)-ni0: arr(e.Identities[ni0+j].Label) == arr(b) && off(e.Identities[ni0+j].Label) + cap(e.Identities[ni0+j].Label) == off(b) + cap(b)
+//@   loop 0 invariant gpIdWalk(b) ==> forall j in 0..len(e.Identities)-ni0: off(e.Identities[ni0+j].Label) == off(b) + gpId(j) + 2
+//@   loop 0 invariant gpIdWalk(b) ==> forall j in 0..len(e.Identities)-ni0: len(e.Identities[ni0+j].Label) == gpIdLen(b, gpId(j))
+//@   loop 0 invariant gpIdWalk(b) ==> forall j in 0..len(e.Identities)-ni0: e.Identities[ni0+j].ObfuscatedTicketAge == gpBe32(b, gpId(j+1) - 4)
+//@   loop 0 invariant len(e.Identities) == ni0 ==> off(s) == off(b) + 2 && identitiesLength == IL && e.Identities == ids0
+//@   loop 0 invariant len(e.Identities) == ni0 + 1 ==> off(s) == off(b) + 8 + l0
+//@   loop 0 invariant len(e.Identities) >= ni0 + 2 ==> (IL - 6 - l0) % 65536 != 0
+//@   loop 0 invariant IL == 0 ==> len(e.Identities) == ni0
+//@   at after call ReadBytes#0: assert label: res ==> arr(identity) == arr(b) && off(identity) + cap(identity) == off(b) + cap(b)
+//@   at after call ReadBytes#0: assert labelwalk: gpIdWalk(b) && res ==> off(identity) == off(b) + gpId(len(e.Identities)-ni0) + 2 && len(identity) == gpIdLen(b, gpId(len(e.Identities)-ni0))
+//@   at after call ReadUint32#0: assert age: gpIdWalk(b) && res ==> obfuscatedTicketAge == gpBe32(b, gpId(len(e.Identities)-ni0+1) - 4)
 //@   loop 1 invariant len(b) >= 4
-//@   note loop 1: the offset (relative to b) at which the binder entries start is written len(b) - atloop(1, len(s)), never atloop(1, off(s)): a clause that names the same expression inside and outside atloop() got both evaluated in one state
+//@   note loop 1: atloop(1, off(s)) is not used for the start of the binder entries: for the address-taken local s, atloop() evaluated s in the CURRENT state (seen in the dumped scripts); the start is named through the walk, gpId(k)+2
 //@   loop 1 invariant arr(s) == arr(b) && off(s) + len(s) == off(b) + len(b) && off(s) + cap(s) == off(b) + cap(b)
-//@   loop 1 invariant off(s) - off(b) >= len(b) - atloop(1, len(s))
-//@   loop 1 invariant len(b) - atloop(1, len(s)) >= 4 + 6 * (len(e.Identities) - ni0)
-//@   loop 1 invariant len(e.Binders) >= nb0 && len(e.Binders) - nb0 <= off(s) - off(b) - (len(b) - atloop(1, len(s)))
+//@   loop 1 invariant len(e.Binders) >= nb0 && 6 * (len(e.Identities) - ni0) + 4 + (len(e.Binders) - nb0) <= off(s) - off(b)
 //@   loop 1 invariant fresh(e.Binders) || (arr(e.Binders) == arr(bds0) && off(e.Binders) == off(bds0) && cap(e.Binders) == cap(bds0))
 //@   loop 1 invariant forall j in 0..nb0: e.Binders[j] == old(e.Binders[j])
-//@   loop 1 invariant gpIdWalk(b) ==> len(b) - atloop(1, len(s)) == gpId(len(e.Identities) - ni0) + 2
-//@   loop 1 invariant gpIdWalk(b) ==> (gpId(len(e.Identities)-ni0) - 2 - IL) % 65536 == 0
-//@   loop 1 invariant bindersLength + (off(s) - off(b) - (len(b) - atloop(1, len(s)))) == gpIdLen(b, len(b) - atloop(1, len(s)) - 2)
+//@   loop 1 invariant len(b) <= 65535 ==> len(b) >= 4 + IL && bindersLength + (off(s) - off(b)) == 4 + IL + BL
+//@   loop 1 invariant len(b) >= 4 && IL == 6 + l0 ==> len(e.Identities) == ni0 + 1
+//@   loop 1 invariant len(b) >= 4 && IL == 0 ==> e.Identities == ids0 && ((len(e.Binders) == nb0 && bindersLength == b[2]*256 + b[3] && e.Binders == bds0) || b[2]*256 + b[3] != 0)
+//@   loop 1 invariant len(b) >= 4 && IL == 6 + l0 && len(e.Binders) == nb0 ==> off(s) == off(b) + 4 + IL && bindersLength == BL
+//@   loop 1 invariant len(b) >= 4 && IL == 6 + l0 && len(e.Binders) == nb0 + 1 ==> off(s) == off(b) + 5 + IL + bl0 && bindersLength == BL - 1 - bl0
+//@   loop 1 invariant len(b) >= 4 && IL == 6 + l0 && len(e.Binders) >= nb0 + 2 ==> BL != 1 + bl0
+//@   loop 1 invariant gpIdWalk(b) ==> (gpId(len(e.Identities)-ni0) - 2 - IL) % 65536 == 0 && gpId(len(e.Identities)-ni0) + 2 <= off(s) - off(b)
+//@   loop 1 invariant gpIdWalk(b) ==> bindersLength + (off(s) - off(b) - (gpId(len(e.Identities)-ni0) + 2)) == gpIdLen(b, gpId(len(e.Identities)-ni0))
 //@   loop 1 invariant gpIdWalk(b) && gpBdWalk(b, gpId(len(e.Identities)-ni0) + 2) ==> off(s) == off(b) + gpBd(len(e.Binders) - nb0)
 //@   loop 1 invariant gpIdWalk(b) && gpBdWalk(b, gpId(len(e.Identities)-ni0) + 2) ==> forall j in 0..len(e.Binders)-nb0: e.Binders[nb0+j] == b[gpBd(j)+1:gpBd(j)+1+b[gpBd(j)]]
+
+// ---------------------------------------------------------------------------------------------
+// (*Conn).utlsConnectionStateLocked (u_conn.go; C11 C22): the uTLS addition to connectionStateLocked. The
+// ALPS settings received from the peer are copied (the slice itself, no copy of the bytes) into the state;
+// nothing else is written.
+//@ func (*Conn).utlsConnectionStateLocked
+//@   property C11 C22
+//@   requires c != nil && state != nil
+//@   modifies state.PeerApplicationSettings
+//@   ensures settings: state.PeerApplicationSettings == c.utls.peerApplicationSettings
+//@   ensures kept: c.utls.peerApplicationSettings == old(c.utls.peerApplicationSettings)
+
+// ---------------------------------------------------------------------------------------------
+// The exported ticket wrappers (ticket.go; C35): EncryptTicket serialises the session state and hands it, with
+// the keys ticketKeys(nil) selects, to encryptTicket; DecryptTicket hands the identity and those keys to
+// decryptTicket and parses what comes back. What encryptTicket / decryptTicket compute from (state, keys) is
+// their contract in verif_contracts_conn.go. The ConnectionState argument is ignored by both.
+// No modifies clause: ticketKeys(nil) takes locks, may install the legacy key and may rotate the automatic keys
+// (reads c.rand(), c.time()); (*SessionState).Bytes and ParseSessionState have no contract either (they are
+// summarised by their computed write effects).
+//@ func (*Config).EncryptTicket
+//@   property C35
+//@   unchecked safety pre
+//@   note unchecked: the only obligation that does not discharge without it is the precondition `rd != nil` of encryptTicket (c.Rand, or crypto/rand.Reader when c.Rand is nil, is a non-nil reader): ticketKeys(nil) has no contract and unknown effects, so nothing about c.Rand / rand.Reader survives it (tried 2026-09-22: every other obligation is ok)
+//@   requires c != nil
+//@   ensures keys_first: called(ticketKeys, 0)
+//@   ensures ser_err: called(Bytes, 0) && (callres(Bytes, 0, 1) != nil ==> isnil(ret0) && ret1 == callres(Bytes, 0, 1) && !called(encryptTicket, 0))
+//@   ensures delegated: callres(Bytes, 0, 1) == nil ==> called(encryptTicket, 0) && ret0 == callres(encryptTicket, 0, 0) && ret1 == callres(encryptTicket, 0, 1)
+//@   at before call ticketKeys#0: assert own_keys: arg0 == c && arg1 == nil
+//@   at before call Bytes#0: assert state_given: arg0 == ss
+//@   at before call encryptTicket#0: assert args: arg0 == c && arg1 == callres(Bytes, 0, 0) && arg2 == callres(ticketKeys, 0)
+
+//@ func (*Config).DecryptTicket
+//@   property C35
+//@   note all bounds/nil obligations and the callee preconditions are checked here (no `unchecked`)
+//@   requires c != nil
+//@   ensures noerr: ret1 == nil
+//@   ensures delegated: called(ticketKeys, 0) && called(decryptTicket, 0)
+//@   ensures rejected: isnil(callres(decryptTicket, 0)) ==> ret0 == nil && !called(ParseSessionState, 0)
+//@   ensures parsed: !isnil(callres(decryptTicket, 0)) ==> called(ParseSessionState, 0) && (callres(ParseSessionState, 0, 1) == nil ==> ret0 == callres(ParseSessionState, 0, 0)) && (callres(ParseSessionState, 0, 1) != nil ==> ret0 == nil)
+//@   at before call ticketKeys#0: assert own_keys: arg0 == c && arg1 == nil
+//@   at before call decryptTicket#0: assert args: arg0 == c && arg1 == identity && arg2 == callres(ticketKeys, 0)
+//@   at before call ParseSessionState#0: assert plaintext: arg0 == callres(decryptTicket, 0)
+
+// ---------------------------------------------------------------------------------------------
+// (*clientHandshakeState).handshake (handshake_client.go; upstream): the order of the steps of a successful
+// TLS 1.0-1.2 client handshake (control flow only, like the TLS 1.3 driver in verif_contracts_client.go).
+// C12: nothing happens before processServerHello succeeded. C14: a handshake that is not a resumption goes through
+// doFullHandshake (which reads and verifies the server's certificate: verif_contracts_client.go) before the keys
+// are established and the client's Finished is sent, and the server's Finished is read after that; a resumption
+// never runs doFullHandshake, reads the server's Finished FIRST and (if configured) runs VerifyConnection before
+// the client's Finished is sent. C11: c.ekm is set once, as the last step, after both Finished messages and
+// saveSessionTicket succeeded, from (c.vers, hs.suite, hs.masterSecret, client random, server random).
+// Call ordinals (block order of `govc ssa`): establishKeys/readSessionTicket/readFinished/sendFinished/flush #0 are the
+// resumption branch, #1 the full-handshake branch.
+//@ func (*clientHandshakeState).handshake
+//@   property C11 C12 C14
+//@   unchecked safety pre
+//@   note unchecked: thin contract (control flow and call arguments only); panic-freedom and callee preconditions are listed assumptions. No modifies clause: the steps read and write the connection (record layer, transcript, session cache, user callbacks)
+//@   requires hs != nil
+//@   ensures sh_first: ret == nil ==> called(processServerHello, 0) && callres(processServerHello, 0, 1) == nil
+//@   ensures sh_err: called(processServerHello, 0) && (callres(processServerHello, 0, 1) != nil ==> ret == callres(processServerHello, 0, 1) && !called(doFullHandshake, 0) && !called(establishKeys, 0) && !called(ekmFromMasterSecret, 0))
+//@   ensures full: ret == nil && !callres(processServerHello, 0, 0) ==> called(doFullHandshake, 0) && callres(doFullHandshake, 0) == nil && called(establishKeys, 1) && callres(establishKeys, 1) == nil && called(sendFinished, 1) && callres(sendFinished, 1) == nil && called(flush, 1) && callres(flush, 1, 1) == nil && called(readSessionTicket, 1) && callres(readSessionTicket, 1) == nil && called(readFinished, 1) && callres(readFinished, 1) == nil
+//@   ensures full_only: !callres(processServerHello, 0, 0) ==> !called(establishKeys, 0) && !called(readFinished, 0) && !called(sendFinished, 0) && !called(VerifyConnection, 0)
+//@   ensures resumed: ret == nil && callres(processServerHello, 0, 0) ==> called(establishKeys, 0) && callres(establishKeys, 0) == nil && called(readSessionTicket, 0) && callres(readSessionTicket, 0) == nil && called(readFinished, 0) && callres(readFinished, 0) == nil && (called(VerifyConnection, 0) ==> callres(VerifyConnection, 0) == nil) && called(sendFinished, 0) && callres(sendFinished, 0) == nil && called(flush, 0) && callres(flush, 0, 1) == nil
+//@   ensures resumed_only: callres(processServerHello, 0, 0) ==> !called(doFullHandshake, 0) && !called(establishKeys, 1) && !called(sendFinished, 1) && !called(readFinished, 1)
+//@   ensures done: ret == nil ==> called(saveSessionTicket, 0) && callres(saveSessionTicket, 0) == nil && called(ekmFromMasterSecret, 0)
+//@   ensures ekm_only_on_success: ret != nil ==> !called(ekmFromMasterSecret, 0)
+//@   at before call doFullHandshake#0: assert full_after_sh: called(processServerHello, 0) && callres(processServerHello, 0, 1) == nil && !callres(processServerHello, 0, 0)
+//@   at before call establishKeys#1: assert keys_after_full: called(doFullHandshake, 0) && callres(doFullHandshake, 0) == nil
+//@   at before call sendFinished#1: assert client_finished_after_full: called(doFullHandshake, 0) && callres(doFullHandshake, 0) == nil && called(establishKeys, 1) && callres(establishKeys, 1) == nil && !called(readFinished, 1) && !called(ekmFromMasterSecret, 0)
+//@   at before call readFinished#1: assert server_finished_after_client: called(sendFinished, 1) && callres(sendFinished, 1) == nil && called(flush, 1) && callres(flush, 1, 1) == nil && called(readSessionTicket, 1) && callres(readSessionTicket, 1) == nil
+//@   at before call establishKeys#0: assert resumed_after_sh: called(processServerHello, 0) && callres(processServerHello, 0, 1) == nil && callres(processServerHello, 0, 0)
+//@   at before call readFinished#0: assert resumed_server_finished_first: called(establishKeys, 0) && callres(establishKeys, 0) == nil && called(readSessionTicket, 0) && callres(readSessionTicket, 0) == nil && !called(sendFinished, 0)
+//@   at before call VerifyConnection#0: assert verify_after_server_finished: called(readFinished, 0) && callres(readFinished, 0) == nil && !called(sendFinished, 0)
+//@   at before call sendFinished#0: assert resumed_client_finished_second: called(readFinished, 0) && callres(readFinished, 0) == nil && (called(VerifyConnection, 0) ==> callres(VerifyConnection, 0) == nil) && !called(ekmFromMasterSecret, 0)
+//@   at before call saveSessionTicket#0: assert save_after_finished: (called(readFinished, 1) && callres(readFinished, 1) == nil && called(sendFinished, 1) && callres(sendFinished, 1) == nil) || (called(sendFinished, 0) && callres(sendFinished, 0) == nil && called(readFinished, 0) && callres(readFinished, 0) == nil && callres(flush, 0, 1) == nil)
+//@   at before call ekmFromMasterSecret#0: assert ekm_last: called(saveSessionTicket, 0) && callres(saveSessionTicket, 0) == nil
+//@   at before call ekmFromMasterSecret#0: assert ekm_in0: arg0 == old(hs.c).vers
+//@   at before call ekmFromMasterSecret#0: assert ekm_in1: arg1 == hs.suite
+//@   at before call ekmFromMasterSecret#0: assert ekm_in2: arg2 == hs.masterSecret
+//@   at before call ekmFromMasterSecret#0: assert ekm_in3: arg3 == hs.hello.random
+//@   at before call ekmFromMasterSecret#0: assert ekm_in4: arg4 == hs.serverHello.random
+//@   at before call Store#0: assert ekm_stored: old(hs.c).ekm == callres(ekmFromMasterSecret, 0)
+//@   at before call Store#0: assert complete_true: arg1
+//@   note ekm_in0 / ekm_stored: old(hs.c) is the local `c := hs.c` read at entry (the connection the handshake state was created for; the name `c` in an anchor was evaluated as the CURRENT hs.c, which the uncontracted steps may have changed)
+
+// ---------------------------------------------------------------------------------------------
+// ShuffleChromeTLSExtensions (u_parrots.go; C03: "the same multiset, with GREASE, padding and pre_shared_key at
+// their spec positions").  Only the automatic obligations (bounds, nil) are discharged here; the C03 clauses
+//     same_list: ret == exts
+//     fixed:     forall k in 0..len(exts): fixedExt(old(exts[k])) ==> ret[k] == old(exts[k])
+// were tried (2026-09-22) and are REFUTED by the generator's model (sat, together with frame:all "function with a
+// modifies clause calls code with unknown effects"), not by the code.  What blocks them, in this order:
+//  1. The native math/rand Shuffle model (CONTRACTS.md) is not applied to the two calls: the swap closures' contracts
+//     in verif_contracts_random.go say `modifies (*exts)[i], (*exts)[j]`, i.e. they mention the parameters
+//     (native_shuffle.go returns "not applicable" for that), so both Shuffle calls are external opaque calls that
+//     havoc the whole heap, including the cell of the captured variable `exts` the result is read from.
+//     Needed there: `modifies (*exts)[0..len(*exts)]`.
+//  2. The closures have no `inv_` requires/ensures pair.  Needed: a position-wise invariant relative to the list
+//     before the shuffle, which must not use old(); e.g. with `uf shufOrig(Int) Int`:
+//     inv_fixed: forall k in 0..len(*exts): (fixedExt((*exts)[k]) <==> shufFixed(k)) && (shufFixed(k) ==> val((*exts)[k]) == shufOrig(k))
+//     established in this function from shufOrig(k) == val(exts[k]) (a requires over the uninterpreted functions).
+//  3. That invariant is preserved only if a swap leaves the list alone whenever element i or j is fixedExt.  The
+//     existing post `swap_or_keep` allows exchanging a GREASE/padding/psk element: the closures call skipShuf through
+//     the captured function variable (SSA values t0, t13) and those calls are `assume-pure` with an UNCONSTRAINED
+//     result.  Needed there: anchors `at after call t0#0: assume skip_i: res <==> fixedExt((*exts)[i])` and the same
+//     for t13 / j (a listed assumption, true because the cell holds ShuffleChromeTLSExtensions$1 from its only
+//     assignment and $1 has the verified post `iff`), then `ensures keep: fixedExt(old((*exts)[i])) || fixedExt(old((*exts)[j])) ==> unchanged`.
+//  4. math/rand.NewSource and fmt.Println have no trusted contract (external: whole-heap havoc); two frame-only
+//     trusted contracts would be needed as well.
+//  "The same multiset" has no counterpart in the contract language (no permutation / counting builtin); with 1-3 it
+//  could be stated as the position-independent inv_ clauses used for generateRandomizedSpec$2.
+// No modifies clause: see 1 and 4 (calls with unknown effects).
+//@ func ShuffleChromeTLSExtensions
+//@   property C03
+//@   note only bounds/nil obligations; the C03 clauses need changes to the swap closures' contracts in verif_contracts_random.go (see the comment above)
